@@ -52,8 +52,14 @@ POOL_LABEL = {"confuse": "texts that coincide under white-space / case normalisa
               "foldlit": "&& / || with a literal on either side x operands of every truthiness, failing operands included",
               "bsruns": "runs of 0..7 backslashes before a closing / escaped delimiter in raw strings, quoted identifiers and JSON literals, alone and inside larger expressions",
               "byorder": "by-functions: an earlier element with a mistyped key and a later element whose key expression fails, in both orders and at every position",
+              "bykeys": "by-functions and map with every form of key expression (negative / positive indexes, slices, nested paths, pipes, filters, calls, groups)",
+              "msnull": "a multi-select list / hash followed at once by every postfix operator, on a null and on a non-null current node",
+              "exprefbody": "expression references whose body starts with every kind of token that can start an expression, followed by every kind of continuation",
+              "firstnull": "projections some of whose results are null, then an index / slice / pipe that depends on which results remain",
+              "bignums": "integers beyond 2^53 and 2^63 next to fractions and small integers, in every order, under the sorting / extreme functions and comparisons",
+              "zeropad": "number tokens written with leading zeros in every index and slice slot",
               "digitkeys": "member names made of digits on arrays and objects (a name never indexes an array)"}
-R6 = ["mapnull", "nested", "twins", "twoslice", "cmpchain", "absent", "litpost", "notgroup", "selfnest", "keyorder", "msidx", "foldlit", "digitkeys", "bsruns", "byorder"]
+R6 = ["mapnull", "nested", "twins", "twoslice", "cmpchain", "absent", "litpost", "notgroup", "selfnest", "keyorder", "msidx", "foldlit", "digitkeys", "bsruns", "byorder", "bykeys", "msnull", "exprefbody", "firstnull", "bignums", "zeropad"]
 
 
 def pool_families(fams, work, ev, drv, nsamples=1):
@@ -154,6 +160,8 @@ def replay(prop, path, work, tv="tv/TV_Eval.tla", engine="search"):
     rec = json.load(open(path))["record"]
     if rec.get("e") == "varapi":
         tv, engine = "tv/TV_VarApi.tla", "varapi"
+    if rec.get("e") == "restype":
+        tv = "tv/TV_ResType.tla"
     rec.pop("d", None)
     cases = work.path("c")
     with open(cases, "w") as f:
@@ -167,6 +175,10 @@ def replay(prop, path, work, tv="tv/TV_Eval.tla", engine="search"):
     print("observation:", json.dumps(o.get("out"))[:600])
     if rej:
         print("spec expected:", json.dumps(rej[0]["exp"])[:900])
+        known = [k for k in common.load_known() if k.get("status") == "known" and prop in k.get("properties", []) and k.get("deviation") in (rej[0].get("expl") or [])]
+        if known:
+            print("KNOWN-FINDING: property=%s %s [%s]" % (prop, known[0].get("what", known[0]["id"])[:200], known[0].get("deviation")))
+            return 0
         print("VIOLATION property=%s replay=%s" % (prop, path))
         return 1
     print("accepted by the specification")
